@@ -1,7 +1,8 @@
 (* Request decoding / result encoding for the extracted model runner.
    dispatch <component> <request> : val.  Definitions only. *)
 From Verif Require Import Base.Tactics Base.ZList Base.Val.
-From Verif Require Import Model.BufReaderModel Model.RangeModel.
+From Verif Require Import Base.Str.
+From Verif Require Import Model.BufReaderModel Model.RangeModel Model.IsoTimeModel.
 
 (* ---- C20 ---- request: (file off bs maxb (size?) mode ops) *)
 Definition c20_op (v : val) : op :=
@@ -58,7 +59,32 @@ Definition c13_run (v : val) : val :=
   else if mode =? 1 then c13_resp (serve_segment pyint_latin1 (iota_from (Z.to_nat len) 0) h)
   else c13_resp (serve_ondemand pyint_latin1 (iota_from (Z.to_nat len) 0) h).
 
+(* ---- C19 ---- request: (mode args...) *)
+Definition c19_dt (v : val) : dt :=
+  {| d_year := vint (vnth 0 v); d_month := vint (vnth 1 v); d_day := vint (vnth 2 v);
+     d_hour := vint (vnth 3 v); d_min := vint (vnth 4 v); d_sec := vint (vnth 5 v);
+     d_us := vint (vnth 6 v); d_off := as_opt_int (vnth 7 v) |}.
+Definition c19_run (v : val) : val :=
+  let mode := vint (vnth 0 v) in
+  if mode =? 0 then of_ints (fmt_duration (vint (vnth 1 v)) (0 <? vint (vnth 2 v)))
+  else if mode =? 1 then
+    match parse_duration (vints (vnth 1 v)) with
+    | DurNoMatch => VL [VI 0] | DurFloatErr => VL [VI 1]
+    | DurVal us e => VL [VI 2; VI us; vbool e]
+    end
+  else if mode =? 2 then of_ints (fmt_datetime (c19_dt (vnth 1 v)))
+  else if mode =? 3 then
+    match parse_datetime (vints (vnth 1 v)) with
+    | DtNoMatch => VL [VI 0] | DtErr => VL [VI 1]
+    | DtVal d e => VL [VI 2; VL [VI (d_year d); VI (d_month d); VI (d_day d); VI (d_hour d);
+                               VI (d_min d); VI (d_sec d); VI (d_us d); vopt_int (d_off d)]; vbool e]
+    end
+  else if mode =? 4 then VI (tc_to_us (vint (vnth 1 v)) (vint (vnth 2 v)))
+  else if mode =? 5 then VI (us_to_tc (vint (vnth 1 v)) (vint (vnth 2 v)))
+  else VI (multiply_td (vint (vnth 1 v)) (vint (vnth 2 v))).
+
 Definition dispatch (comp : Z) (v : val) : val :=
   if comp =? 20 then c20_run v
   else if comp =? 13 then c13_run v
+  else if comp =? 19 then c19_run v
   else verr 999.
